@@ -5,10 +5,13 @@ import SvtVerif.Gen.RelDist
 import SvtVerif.Gen.Config
 import SvtVerif.Gen.QTable
 import SvtVerif.Lemmas.Reorder
+import SvtVerif.Props.C02
 import SvtVerif.Props.C03
 import SvtVerif.Props.C12
 import SvtVerif.Props.C13
 import SvtVerif.Props.C18
 import SvtVerif.Props.C19
 import SvtVerif.Props.C22
+import SvtVerif.Props.C23
+import SvtVerif.Props.C24
 import SvtVerif.Props.C25
